@@ -24,6 +24,7 @@ def M_(run, ci, name):
 # --- tiny local type inference: which local names / expressions are timedeltas?
 def timedelta_names(u):
     names = set()
+    dt_locals = set(names_defined_by(u, lambda v: (dotted(v) or '').split('.')[-1] in ('expires', 'created')))
     changed = True
 
     def is_td(e):
@@ -39,7 +40,7 @@ def timedelta_names(u):
 
     def is_dt(e):
         d = dotted(e) or ''
-        if d.split('.')[-1] in ('expires', 'created', 'oldexpires', 'now') or d in ('oldexpires',):
+        if d.split('.')[-1] in ('expires', 'created', 'now') or d in dt_locals:
             return True
         if isinstance(e, ast.Call) and (dotted(e.func) or '').split('.')[-1] in ('utcnow', 'now', 'strptime', 'fromtimestamp'):
             return True
@@ -97,7 +98,8 @@ def r20_2(run):
               and dotted(n.ast.targets[0].value) == 'self.addr']
     keys = [src(n.ast.targets[0].slice) for n in stores]
     run.floor('R20.2', 'stores into AddrMap.addr', len(stores), 2)
-    name_key, addr_key = 'params[0]', 'params[1]'
+    PARAMS = (names_defined_by(up, lambda v: isinstance(v, ast.Call) and (dotted(v.func) or '').endswith('split')) or ['params'])[0]
+    name_key, addr_key = PARAMS + '[0]', PARAMS + '[1]'
     run.ob('R20.2', up, up.node, 'a mapping is stored under its name and under its address', name_key in keys and addr_key in keys, slot='store-both', message='stored under %s' % keys)
     # _expire removes every key the mapping is stored under
     dels = [n for n in walk_unit(ex) if isinstance(n, ast.Delete)]
@@ -138,6 +140,7 @@ def r20_2(run):
 def r20_3(run):
     ad = AD(run)
     up = M_(run, ad, 'update')
+    OLDN = names_defined_by(up, lambda v: dotted(v) == 'self.expires')
     ex = M_(run, ad, '_expire')
     g = cfg_of(up)
 
@@ -171,7 +174,7 @@ def r20_3(run):
                 if isinstance(a, ast.Compare) and dotted(a.left) == 'self.expires' and is_none(a.comparators[0]):
                     isnone = (new == 'never')
                     return isnone if isinstance(a.ops[0], ast.Is) else (not isnone)
-                if isinstance(a, ast.Compare) and dotted(a.left) == 'oldexpires' and is_none(a.comparators[0]):
+                if isinstance(a, ast.Compare) and dotted(a.left) in OLDN and is_none(a.comparators[0]):
                     isnone = not old_timed
                     return isnone if isinstance(a.ops[0], ast.Is) else (not isnone)
                 if isinstance(a, ast.Compare) and dotted(a.left) == 'self.expiry' and is_none(a.comparators[0]):
